@@ -261,7 +261,7 @@ pub fn run(ctx: &Ctx) -> Result<Evidence, String> {
     if acc.counters.get("HARNESS_not_valid").copied().unwrap_or(0) > 0 {
         return Err(format!("{} generated C10 queries are not Valid for oracle (b)", acc.counters["HARNESS_not_valid"]));
     }
-    let mut ev = Evidence::new("cases: (i) length/count/value over every JSON type (literal, @, @.m, missing, multi-node, duplicate-node and filter-produced node lists), their results compared with literals, with each other and with Nothing and used under !, &&, ||; (ii) match/search: a pattern list covering literals, ., classes, negated classes, groups, top-level and nested alternation, quantifiers, explicit anchors, \\d \\w \\s \\p{..}, escaped metacharacters, invalid patterns, quotes + seeded random patterns, each x all strings of length <= 3 over {a,b,c} plus a unicode set and non-strings; pattern as literal and from a document node; both polarities; swapped/non-string arguments. Non-trivial = distinct query texts that keep at least one child. The reference run records the (function, argument kinds, result) triples listed in function_x_args_x_result.");
+    let mut ev = Evidence::new("cases: (i) length/count/value over every JSON type (literal, @, @.m, missing, multi-node, duplicate-node and filter-produced node lists), their results compared with literals, with each other and with Nothing and used under !, &&, ||; (ii) match/search: a pattern list covering literals, ., classes, negated classes, groups, top-level and nested alternation, quantifiers, explicit anchors, \\d \\w \\s \\p{..}, escaped metacharacters, invalid patterns, quotes + seeded random patterns, each x all strings of length <= 3 over {a,b,c} plus a unicode set and non-strings; pattern as literal and from a document node; both polarities; swapped/non-string arguments. Patterns include character classes with escaped brackets / dots / hyphens / carets and large Unicode classes under counted repetition. Non-trivial = distinct query texts that keep at least one child. The reference run records the (function, argument kinds, result) triples listed in function_x_args_x_result.");
     ev.set("exhaustive", json!(false));
     ev.set("patterns", json!(pats.len()));
     ev.set("subjects_per_pattern", json!(subjects().len() + 5));
